@@ -284,6 +284,7 @@ func execAssoc[K comparable, V any](c assocCase, kt keyType[K], vt valType[V]) (
 	var coll assocLike[K, V]
 	var catalog col.CatalogLike[K, V]
 	var source assocLike[K, V] // the collection the constructor was given (sequence forms with a catalog or map as source)
+	var argAssocs []col.AssociationLike[K, V] // the Go array of associations the constructor was given
 	seqSource := func() col.Sequential[col.AssociationLike[K, V]] {
 		switch c.Ctor {
 		case "MakeFromSequence/catalog":
@@ -303,7 +304,8 @@ func execAssoc[K comparable, V any](c assocCase, kt keyType[K], vt valType[V]) (
 			case "Make":
 				catalog = C.Make()
 			case "MakeFromArray":
-				catalog = C.MakeFromArray(initAssocs())
+				argAssocs = initAssocs()
+				catalog = C.MakeFromArray(argAssocs)
 			case "MakeFromMap":
 				catalog = C.MakeFromMap(initMap())
 			case "MakeFromSequence", "MakeFromSequence/catalog", "MakeFromSequence/map":
@@ -316,7 +318,8 @@ func execAssoc[K comparable, V any](c assocCase, kt keyType[K], vt valType[V]) (
 			case "Make":
 				coll = M.Make()
 			case "MakeFromArray":
-				coll = M.MakeFromArray(initAssocs())
+				argAssocs = initAssocs()
+				coll = M.MakeFromArray(argAssocs)
 			case "MakeFromMap":
 				coll = M.MakeFromMap(initMap())
 			case "MakeFromSequence", "MakeFromSequence/catalog", "MakeFromSequence/map":
@@ -628,6 +631,25 @@ func execAssoc[K comparable, V any](c assocCase, kt keyType[K], vt valType[V]) (
 			lookedUpAfter = true // check() reads every universe key after every step
 		}
 	}
+	if argAssocs != nil {
+		// the associations handed to MakeFromArray stay the caller's: the history above has not changed them, and
+		// changing them now does not reach the collection
+		for i, e := range c.Init {
+			if !sameKey(argAssocs[i].GetKey(), kt.keys[e.K]) || !vt.same(argAssocs[i].GetValue(), vt.vals[e.V]) {
+				res.Violation = core.Violate(prop+"/ctor/shares-argument", "the history on a collection made by MakeFromArray changed association %d of the array it was given: now %s:%s, it was %s:%s", i+1,
+					kt.show(argAssocs[i].GetKey()), vt.show(argAssocs[i].GetValue()), kt.show(kt.keys[e.K]), vt.show(vt.vals[e.V]))
+				return res
+			}
+		}
+		before := showAssocsOf(coll, kt)
+		for _, a := range argAssocs {
+			a.SetValue(vt.vals[3])
+		}
+		if now := showAssocsOf(coll, kt); now != before {
+			res.Violation = core.Violate(prop+"/ctor/shares-argument", "changing the associations of the array given to MakeFromArray changed the collection: %s -> %s", before, now)
+			return res
+		}
+	}
 	if source != nil {
 		// the collection the constructor read from is a collection of its own
 		if now := showAssocsOf(source, kt); now != sourceBefore {
@@ -660,6 +682,7 @@ func showAssocsOf[K comparable, V any](a assocLike[K, V], kt keyType[K]) string 
 func TestC03(t *testing.T) {
 	r := core.Begin(t, "C03")
 	defer r.End()
+	core.DFS(r, core.Check[largeCase]{Name: "large-sizes", Gen: genLarge([]string{"Catalog"}), Exec: execLarge("C03"), NoJournal: true}, 0)
 	keyTypes := []string{"string", "int", "rune", "float64", "nan", "any", "ptr", "ptr"}
 	core.Rapid(r, core.Check[assocCase]{Name: "history", Gen: genAssocCase("catalog", keyTypes, 40, 8), Exec: execAssocCase}, r.N(3000, 30000))
 	// every history of up to 3 (quick) / 4 (thorough) operations over 3 keys, including pointer keys with equal pointees
